@@ -15,15 +15,35 @@ def nl_obligations(rep):
                       'sqlparse.filters.reindent.ReindentFilter.nl',
                       'sql.Token(T.Whitespace, self.n + self.char * max(0, self.leading_ws + offset))' in txt, {},
                       undecided_if_false=True)
-    n = src.get('sqlparse.filters.reindent.ReindentFilter._next_token')
-    txt = ast.unparse(n) if n else ''
-    words = ['FROM', 'JOIN$', 'AND', 'OR', 'GROUP BY', 'ORDER BY', 'UNION', 'SET', 'EXCEPT', 'HAVING', 'LIMIT']
+    # the clause keywords of the property are split words of the real ReindentFilter._next_token: decided by running it
+    # (exhaustive over the finite list of keywords, each alone in a token list and after a BETWEEN)
+    from pyvc.core import import_repo
+    import_repo()
+    from sqlparse import sql, tokens as T, lexer
+    from sqlparse.filters.reindent import ReindentFilter
+    words = ['FROM', 'JOIN', 'LEFT JOIN', 'LEFT OUTER JOIN', 'INNER JOIN', 'CROSS JOIN', 'STRAIGHT_JOIN', 'AND', 'OR',
+             'GROUP BY', 'ORDER BY', 'UNION', 'UNION ALL', 'SET', 'EXCEPT', 'HAVING', 'LIMIT']
+    missing, between = [], None
+    try:
+        f = ReindentFilter()
+        for w in words:
+            toks = [sql.Token(tt, v) for tt, v in lexer.tokenize('x ' + w + ' y')]
+            tl = sql.TokenList(toks)
+            idx, tok = f._next_token(tl)
+            if tok is None or tok.normalized != w:
+                missing.append(w)
+        toks = [sql.Token(tt, v) for tt, v in lexer.tokenize('a BETWEEN 1 AND 2 AND b')]
+        tl = sql.TokenList(toks)
+        idx, tok = f._next_token(tl)
+        ands = [i for i, t in enumerate(toks) if t.normalized == 'AND']
+        between = (tok is not None and idx == ands[1])
+    except Exception as e:      # noqa
+        missing, between = ['%s: %s' % (type(e).__name__, e)], None
     common.structural(rep, 'C10/ReindentFilter._next_token/split words contain every clause keyword of the property',
-                      'sqlparse.filters.reindent.ReindentFilter._next_token', all(("'%s'" % w) in txt for w in words),
-                      {'missing': [w for w in words if ("'%s'" % w) not in txt]})
+                      'sqlparse.filters.reindent.ReindentFilter._next_token', not missing, {'not found as a split word': missing})
     common.structural(rep, 'C10/ReindentFilter._next_token/AND directly after BETWEEN is skipped',
-                      'sqlparse.filters.reindent.ReindentFilter._next_token',
-                      "token.normalized == 'BETWEEN'" in txt and "token.normalized == 'AND'" in txt, {}, undecided_if_false=True)
+                      'sqlparse.filters.reindent.ReindentFilter._next_token', between is True, {'second AND found': between},
+                      undecided_if_false=between is None)
     n = src.get('sqlparse.filters.others.StripWhitespaceFilter.process')
     txt = ast.unparse(n) if n else ''
     common.structural(rep, 'C10/StripWhitespaceFilter.process/at depth 0 a trailing whitespace token is removed',
